@@ -400,7 +400,12 @@ func work(ctx *runner.Ctx) {
 		}
 		genEmit := func(g mpclgen.Gen) {
 			n++
-			if n%stride != 0 {
+			// literal operands reach the target-specific builders with operands of different widths: all of them
+			always := strings.HasPrefix(g.Fam, "const-flow-operand") || strings.HasPrefix(g.Fam, "const-flow-compare") || strings.HasPrefix(g.Fam, "neg-literal-operand")
+			if always && quick && (strings.Contains(g.Fam, "./.") || strings.Contains(g.Fam, ".%.")) && strings.Contains(g.Fam, "int64") {
+				always = false // 64-bit dividers under 14 configurations are the expensive ones: strided in quick
+			}
+			if n%stride != 0 && !always {
 				return
 			}
 			fam := g.Fam
